@@ -370,15 +370,17 @@ where
         worker_pool: &HashMap<WorkerId, WorkerProperties<TKey, TMsg>>,
     ) -> Option<WorkerId> {
         // check sticky first
+        // (a key is "with" a worker while one of its jobs is in flight there or parked in
+        // that worker's own queue, e.g. because the worker actor is being replaced)
         if let Some(worker) = worker_hint.and_then(|worker| worker_pool.get(&worker)) {
-            if worker.is_processing_key(&job.key) {
+            if worker.has_pending_key(&job.key) {
                 return worker_hint;
             }
         }
 
         let maybe_worker = worker_pool
             .iter()
-            .find(|(_, worker)| worker.is_processing_key(&job.key))
+            .find(|(_, worker)| worker.has_pending_key(&job.key))
             .map(|(a, _)| *a);
         if maybe_worker.is_some() {
             return maybe_worker;
